@@ -45,3 +45,8 @@ class Tuner_handle_failure:
 
 # (the contract for a failed job of synchronous Hyperband -- reported to its bracket as NaN -- lives in contracts/c05.py)
 from contracts.c05 import SyncHB_report_as_failed, I_sbm_on_result, SyncHB_on_trial_error, I_ss_evaluation_failed, I_ss_debug_log, SyncHB_on_trial_result, I_sbm_level_to_prev_level, I_ss_on_trial_result  # noqa: F401,E402
+
+
+from pyvc.native import native_monitor  # noqa: E402
+
+EXTRA_CHECKS = (list(EXTRA_CHECKS) if 'EXTRA_CHECKS' in globals() else []) + [native_monitor("C13", "contracts.c13_native", "monitor_failures", "failures", "1490 (thorough 6826) scenarios: real Tuner runs with failures placed before the first report / between reports / after a resume / stopped from outside (12 scheduler set-ups x 10 placements x 3 failure limits), searchers with restrict_configurations, GP searcher state before and after every failure, asynchronous and synchronous Hyperband, DEHB, PBT, MOASHA and the median rule against reference models")]
